@@ -316,7 +316,7 @@ theorem connect_ok_stream (w : World) (h s id : Nat) (loc rem : Addr) (chan fcW 
     (hst : (w.syns.getD id default).st = .acked) :
     (w.connectPoll h s).1.getObj h s =
       some (.stream (some { loc := loc, rem := rem, chan := chan, fc := fcW + 1 })
-                    (some { loc := loc, rem := rem, fc := fcW })) := by
+                    (some { loc := loc, rem := rem, fc := fcW, sid := chan })) := by
   unfold connectPoll
   simp only [ho, hst]
   exact getObj_setObj_self w h s _ (lt_of_getObj w h s _ ho)
@@ -531,7 +531,7 @@ theorem pairing (w : World) (h ls s c sc id : Nat) (lloc a b : Addr) (chan fcW :
     ((w.opTcpAccept h ls s).1.connectPoll c sc).2 = s!"ok {a.toTok} {b.toTok}" ∧
     ((w.opTcpAccept h ls s).1.connectPoll c sc).1.getObj c sc =
       some (.stream (some { loc := a, rem := b, chan := chan, fc := fcW + 1 })
-                    (some { loc := a, rem := b, fc := fcW })) ∧
+                    (some { loc := a, rem := b, fc := fcW, sid := chan })) ∧
     (∃ pre, (∀ r ∈ pre, w.synAlive r.id = false) ∧
       pendingQueue w h lloc.port = pre ++ ⟨id, a⟩ :: pendingQueue (w.opTcpAccept h ls s).1 h lloc.port) ∧
     (w.opTcpAccept h ls s).1.synAlive id = false ∧
